@@ -296,7 +296,7 @@ static void ev_ledger(void) {
 
 /* ------------------------------------------------------------------ value table */
 
-enum { VT_INT = 1, VT_STR = 2, VT_FLT = 3, VT_PROBE = 4, VT_BOX = 5, VT_ODD = 6, VT_PAIR = 7 };   /* VT_BOX: a Box owning a managed Probe */
+enum { VT_INT = 1, VT_STR = 2, VT_FLT = 3, VT_PROBE = 4, VT_BOX = 5, VT_ODD = 6, VT_PAIR = 7, VT_SWP = 8 };   /* VT_BOX: a Box owning a managed Probe */
 /* a plain 12-byte record (no Swap, Assign or Hash instance of its own: the library's byte-wise defaults apply); the two
    payload fields are functions of the key, so a record whose bytes were mixed with another one's is recognised */
 struct Odd12 { int32_t key, a, b; };
@@ -308,6 +308,12 @@ static void odd12_init(void) { }
    (v >> 2, v & 3), so different values share their first 8 bytes; for 0 <= v < 1024 the byte-wise order is the order of v */
 struct Pair16 { int64_t hi, lo; };
 var Pair16 = Cello(Pair16);
+/* a record with its OWN Swap instance (and Cmp): sort exchanges elements through it; tag is a function of the value */
+struct Swp { int64_t v, tag; };
+static int Swp_Cmp(var self, var obj) { struct Swp* x = self; struct Swp* y = cast(obj, type_of(self)); return x->v < y->v ? -1 : x->v > y->v ? 1 : 0; }
+static void Swp_Swap(var self, var obj) { struct Swp* x = self; struct Swp* y = cast(obj, type_of(self)); struct Swp t = *x; *x = *y; *y = t; }
+var Swp = Cello(Swp, Instance(Cmp, Swp_Cmp), Instance(Swap, Swp_Swap));
+static var swp_make(int64_t v) { struct Swp* p = alloc_raw(Swp); p->v = v; p->tag = v * 5 + 3; return p; }
 static var pair16_make(int64_t v) { struct Pair16* p = alloc_raw(Pair16); p->hi = v >> 2; p->lo = v & 3; return p; }
 struct Val { int kind; int64_t i; double f; char* s; size_t sl; };
 #define HC_MAXV 4096
@@ -317,15 +323,15 @@ static int vt_nk = 0, vt_nv = 0;
 static int vt_kind_of(const char* s) {
   if (!strcmp(s, "Int")) return VT_INT; if (!strcmp(s, "String")) return VT_STR;
   if (!strcmp(s, "Float")) return VT_FLT; if (!strcmp(s, "Probe")) return VT_PROBE; if (!strcmp(s, "Box")) return VT_BOX;
-  if (!strcmp(s, "Odd12")) { odd12_init(); return VT_ODD; } if (!strcmp(s, "Pair16")) return VT_PAIR; return 0;
+  if (!strcmp(s, "Odd12")) { odd12_init(); return VT_ODD; } if (!strcmp(s, "Pair16")) return VT_PAIR; if (!strcmp(s, "Swp")) return VT_SWP; return 0;
 }
-static var vt_type(int kind) { return kind == VT_PAIR ? Pair16 : kind == VT_ODD ? Odd12 : kind == VT_INT ? Int : kind == VT_STR ? String : kind == VT_FLT ? Float : kind == VT_BOX ? Box : Probe; }
+static var vt_type(int kind) { return kind == VT_SWP ? Swp : kind == VT_PAIR ? Pair16 : kind == VT_ODD ? Odd12 : kind == VT_INT ? Int : kind == VT_STR ? String : kind == VT_FLT ? Float : kind == VT_BOX ? Box : Probe; }
 
 /* parse "<tok> <spec>" : Int/Probe decimal, String hex, Float hex of the IEEE bits */
 static void vt_define(struct Val* tab, int* n, int kind, int tok, const char* spec) {
   if (tok <= 0 || tok >= HC_MAXV) { fprintf(stderr, "bad token %d\n", tok); exit(9); }
   struct Val* v = &tab[tok]; v->kind = kind;
-  if (kind == VT_INT || kind == VT_PROBE || kind == VT_BOX || kind == VT_ODD || kind == VT_PAIR) v->i = strtoll(spec, NULL, 10);
+  if (kind == VT_INT || kind == VT_PROBE || kind == VT_BOX || kind == VT_ODD || kind == VT_PAIR || kind == VT_SWP) v->i = strtoll(spec, NULL, 10);
   else if (kind == VT_FLT) { uint64_t b = strtoull(spec, NULL, 16); memcpy(&v->f, &b, 8); }
   else { size_t cap = strlen(spec) / 2 + 2; v->s = malloc(cap); v->sl = hc_unhex(spec, (unsigned char*)v->s, cap - 1); v->s[v->sl] = 0; }
   if (tok > *n) *n = tok;
@@ -342,6 +348,7 @@ static var vt_make(struct Val* tab, int tok) {
     case VT_BOX: return new(Probe, $I(v->i));      /* managed: a Box deletes its pointee with del() */
     case VT_ODD: return new_raw(Odd12, $I(v->i));
     case VT_PAIR: return pair16_make(v->i);
+    case VT_SWP: return swp_make(v->i);
   }
   return NULL;
 }
@@ -360,6 +367,7 @@ static int vt_token(struct Val* tab, int n, var o) {
     else if (v->kind == VT_PROBE && t == Probe) { if (((struct Probe*)o)->val == v->i) return k; }
     else if (v->kind == VT_BOX && t == Box) { struct Probe* pp = ((struct Box*)o)->val; if (pp && pp->val == v->i) return k; }
     else if (v->kind == VT_BOX && t == Probe) { if (((struct Probe*)o)->val == v->i) return k; }
+    else if (v->kind == VT_SWP && t == Swp) { struct Swp* r = o; if (r->v == v->i && r->tag == v->i * 5 + 3) return k; }
     else if (v->kind == VT_PAIR && t == Pair16) { struct Pair16* r = o; if (r->hi == (v->i >> 2) && r->lo == (v->i & 3)) return k; }
     else if (v->kind == VT_ODD && t == Odd12) { struct Odd12* r = o; if (r->key == (int32_t)v->i && r->a == r->key * 3 + 1 && r->b == r->key * 7 + 2) return k; }
   }
